@@ -51,30 +51,45 @@ Fixpoint ventry (p : path) (it : item) : list (list N) :=
   end.
 Definition ventries (p : path) (l : list item) : list (list N) := flat_map (ventry p) l.
 
-(** the specification lists the block first *)
-Fixpoint sentry (p : path) (it : item) : list (list N) :=
+(** the specification lists the block first; [inm]: the enclosing scope is a Method body (its statements are part of the
+    Method's entry), otherwise a statement is an anonymous entry of the scope *)
+Fixpoint sentry (inm : bool) (p : path) (it : item) : list (list N) :=
   match it with
   | IName d => [name_entry p d]
   | IBlk bk _ seg fa body =>
       (blk_entry (p ++ [seg]) bk (bfx bk fa) ++ (if bk_op bk =? aml_pOpMethod then concat (flat_map stmt_of body) else [])) ::
-      flat_map (sentry (p ++ [seg])) body ++ (if bk_op bk =? aml_pOpMethod then [] else anon (p ++ [seg]) (flat_map stmt_of body))
+      flat_map (sentry (bk_op bk =? aml_pOpMethod) (p ++ [seg])) body
   | ILeaf lk seg fa ta => [leaf_entry (p ++ [seg]) lk (lfx lk fa) ta]
   | IPkg seg _ n elems => [pkg_entry (p ++ [seg]) n elems]
-  | IStmt _ _ => []
+  | IStmt sk ta => if inm then [] else [[2] ++ tok_path p ++ stmt_tokens sk ta]
   end.
-Definition sentries (p : path) (l : list item) : list (list N) := flat_map (sentry p) l.
+Definition sentries (inm : bool) (p : path) (l : list item) : list (list N) := flat_map (sentry inm p) l.
 
-Lemma ventries_perm : forall l p, Permutation (ventries p l) (sentries p l).
+Lemma ventries_perm : forall l p,
+  Permutation (ventries p l ++ anon p (vstmts l)) (sentries false p l) /\ Permutation (ventries p l) (sentries true p l).
 Proof.
-  induction l as [|d rest IH|bk k seg fa body rest IHb IH|lk seg fa ta rest IH|seg k n elems rest IH|sk ta rest IH] using items_ind; intros p; [constructor| | | | |].
-  5:{ cbn [ventries sentries flat_map ventry sentry app]. apply IH. }
-  - cbn [ventries sentries flat_map ventry sentry]. apply Permutation_app_head. apply IH.
-  - cbn [ventries sentries flat_map ventry sentry]. apply Permutation_app; [|apply IH].
-    fold (ventries (p ++ [seg]) body). fold (sentries (p ++ [seg]) body).
-    rewrite app_assoc. eapply Permutation_trans; [apply Permutation_app_comm|]. cbn [app]. constructor.
-    apply Permutation_app_tail. apply IHb.
-  - cbn [ventries sentries flat_map ventry sentry]. apply Permutation_app_head. apply IH.
-  - cbn [ventries sentries flat_map ventry sentry]. apply Permutation_app_head. apply IH.
+  induction l as [|d rest IH|bk k seg fa body rest IHb IH|lk seg fa ta rest IH|seg k n elems rest IH|sk ta rest IH] using items_ind; intros p.
+  - split; constructor.
+  - destruct (IH p) as (A & B). cbn [ventries sentries vstmts flat_map ventry sentry stmt_of app]. split; constructor; assumption.
+  - destruct (IH p) as (A & B). destruct (IHb (p ++ [seg])) as (Ab & Bb).
+    cbn [ventries sentries vstmts flat_map ventry sentry stmt_of app].
+    fold (ventries (p ++ [seg]) body). fold (vstmts body). fold (ventries p rest). fold (vstmts rest).
+    fold (sentries (bk_op bk =? aml_pOpMethod) (p ++ [seg]) body). fold (sentries false p rest). fold (sentries true p rest).
+    set (hdr := blk_entry (p ++ [seg]) bk (bfx bk fa) ++ (if bk_op bk =? aml_pOpMethod then concat (vstmts body) else [])).
+    set (X := if bk_op bk =? aml_pOpMethod then [] else anon (p ++ [seg]) (vstmts body)).
+    assert (HB : Permutation (ventries (p ++ [seg]) body ++ X) (sentries (bk_op bk =? aml_pOpMethod) (p ++ [seg]) body)).
+    { unfold X. destruct (bk_op bk =? aml_pOpMethod); [rewrite app_nil_r; exact Bb|exact Ab]. }
+    assert (HG : forall T T', Permutation T T' ->
+              Permutation ((ventries (p ++ [seg]) body ++ X ++ [hdr]) ++ T) (hdr :: sentries (bk_op bk =? aml_pOpMethod) (p ++ [seg]) body ++ T')).
+    { intros T T' HT. rewrite (app_assoc (ventries (p ++ [seg]) body) X [hdr]).
+      eapply Permutation_trans; [apply Permutation_app_tail; apply Permutation_sym; apply Permutation_cons_append|].
+      cbn [app]. constructor. apply Permutation_app; assumption. }
+    split; [rewrite <- app_assoc; apply HG; exact A|apply HG; exact B].
+  - destruct (IH p) as (A & B). cbn [ventries sentries vstmts flat_map ventry sentry stmt_of app]. split; constructor; assumption.
+  - destruct (IH p) as (A & B). cbn [ventries sentries vstmts flat_map ventry sentry stmt_of app]. split; constructor; assumption.
+  - destruct (IH p) as (A & B). cbn [ventries sentries vstmts flat_map ventry sentry stmt_of app anon map].
+    fold (ventries p rest). fold (vstmts rest). fold (anon p (vstmts rest)). fold (sentries false p rest). fold (sentries true p rest).
+    split; [|exact B]. apply Permutation_sym. apply Permutation_cons_app. apply Permutation_sym. exact A.
 Qed.
 
 (** ---- the arguments of a named object, one by one ---- *)
